@@ -16,6 +16,17 @@ def dump_mir(crate):
     try:
         for d in glob.glob(os.path.join(tdir, "debug", ".fingerprint", crate + "-*")):
             shutil.rmtree(d, ignore_errors=True)
+        for old in glob.glob(os.path.join(CACHE, "mir", crate + "-*.mir*")):
+            try:
+                pid = int(os.path.basename(old).split("-")[1].split(".")[0])
+                os.kill(pid, 0)
+            except (ValueError, ProcessLookupError):
+                try:
+                    os.remove(old)
+                except OSError:
+                    pass
+            except PermissionError:
+                pass
         out = os.path.join(CACHE, "mir", "%s-%d.mir" % (crate, os.getpid()))
         env = dict(os.environ, CARGO_TARGET_DIR=tdir, CARGO_NET_OFFLINE="true")
         env.pop("RUSTFLAGS", None)
